@@ -60,6 +60,10 @@ class StateView:
     def alloc(self, obj):
         return z3.Select(self._st.alloc, unwrap(obj).ref)
 
+    def obj(self, ref, cls):
+        """view of the object behind an arbitrary reference term"""
+        return ObjView(self._ex, self._st, ty.ObjV(ref, cls))
+
     def alloc_ref(self, ref):
         return z3.Select(self._st.alloc, ref)
 
